@@ -36,9 +36,12 @@ def rule_frames(prog):
         if s is None:
             continue
         c = b["_crate"]
-        fname = c.file_of(b["sp"]).rsplit("/", 1)[-1]
+        fpath = c.file_of(b["sp"])
+        fname = fpath.rsplit("/", 1)[-1]
+        if fname == "mod.rs" and fpath.count("/") >= 1:
+            fname = fpath.rsplit("/", 2)[-2] + ".rs"
         for sk in s.sinks:
             if sk.kind == "conv":
                 continue
-            out.add(b["d"], "%s %s" % (sk.kind, sk.what), sk.ok, c.loc(sk.sp), sk.msg, (sk.kind, fname))
+            out.add(b["d"], "%s %s" % (sk.kind, sk.what), sk.ok, c.loc(sk.sp), sk.msg, (sk.kind, fname, "path:" + fpath))
     return out
